@@ -66,6 +66,9 @@ def _files(fmt):
         return {"a.bin": blob("a", 300), "d1": None, "d1/b.bin": blob("b", 70000), "d1/d2": None, "d1/d2/c.txt": b"hello\n",
                 "d1/empty.dat": b"", "e": None, "d1/clip_002..wav": blob("w", 90),  # '..' inside a file name is legal
                 "attachment.zip": _tiny_zip()}  # ONE zip among many plain files: a plain folder, copied as it is (the zip stays a zip)
+    if fmt == "raw_containers":
+        # a PLAIN folder whose files are mostly zip containers that are not named *.zip (numpy / torch / java archives): copied as it is
+        return {"weights.npz": _tiny_zip(), "shard_0.pt": _tiny_zip() + b"", "model.jar": _tiny_zip(), "labels.csv": b"plain"}
     if fmt == "zip":
         return {"top.bin": blob("t", 500), "k": None, "k/x.bin": blob("x", 66000), "k/y.txt": b"y", "k/Dr..Who_s01.wav": blob("d", 50)}
     if fmt == "zips":
@@ -92,7 +95,11 @@ def _make_source(root, scn):
     src = g / rel if rel else g / "ds"
     fmt = scn["fmt"]
     expected = {}
-    if fmt == "raw":
+    if fmt == "raw_containers":
+        files = _files(fmt)
+        _write_tree(src, files)
+        expected = dict(files)
+    elif fmt == "raw":
         files = _files("raw")
         _write_tree(src, files)
         expected = dict(files)
@@ -197,11 +204,11 @@ def _send(req):
     return res
 
 
-def _call_in_child(root, scn, kill_at=None, workers=0, fail_at=None):
+def _call_in_child(root, scn, kill_at=None, workers=0, fail_at=None, fsize_limit=None):
     """runs the real function in a forked child (of the light fork server) under the audit monitor.
     returns dict(status=returned|killed|raised, result=..., events=[(name, paths, mutating)], err=str)"""
     g, l, rel, dst = _paths(root, scn)
-    req = {"root": str(root), "fn": scn["fn"], "g": str(g), "l": str(l), "rel": rel, "kill_at": kill_at, "workers": workers, "fail_at": fail_at}
+    req = {"root": str(root), "fn": scn["fn"], "g": str(g), "l": str(l), "rel": rel, "kill_at": kill_at, "workers": workers, "fail_at": fail_at, "fsize_limit": fsize_limit}
     srv = _get_server()
     srv.stdin.write(json.dumps(req) + "\n")
     srv.stdin.flush()
@@ -221,6 +228,8 @@ def _scenarios():
             for rel in (None, "sub/ds"):
                 for parent in (True, False):
                     out.append({"fn": fn, "fmt": fmt, "rel": rel, "parent": parent})
+    for fn in ("folder", "imagefolder"):
+        out.append({"fn": fn, "fmt": "raw_containers", "rel": None, "parent": True})
     # source / destination names with glob metacharacters and spaces ("audioset[2M]", "fold [1-4]")
     for fn in ("folder", "imagefolder"):
         for fmt in ("raw", "zip", "zips"):
@@ -281,15 +290,25 @@ def gen_cases(run):
             continue
         if mine():
             yield {"scn": scn, "kills": [], "n": n, "_trivial": True}
+        sparse = run.tier == "quick" and (scn.get("glob") or scn["fmt"] in ("raw_containers", "zips_half") or scn.get("sib_suffix"))
         for k in range(1, n + 1):
+            if sparse and k % 3 != (1 + run.seed) % 3:
+                continue  # quick: the variants that differ from a fully swept scenario only in names get every third death point
             if mine():
                 yield {"scn": scn, "kills": [k], "n": n}
         # an operation fails with an I/O error instead of the process dying (full disk, flaky network file system): the call may raise,
         # but it must not report - now or later - a copy it did not finish
-        ks = list(range(1, n + 1)) if run.tier == "thorough" else sorted(rng.sample(range(1, n + 1), min(n, 6)))
+        structural = [i + 1 for i, e in enumerate(r["events"]) if e[0] in ("os.rename", "os.replace", "os.mkdir", "shutil.rmtree", "os.rmdir")]
+        ks = list(range(1, n + 1)) if run.tier == "thorough" else sorted(set(rng.sample(range(1, n + 1), min(n, 1))) | set(structural[::2] if sparse else structural))
         for k in ks:
             if mine():
                 yield {"scn": scn, "kills": [k], "n": n, "fail": True}
+        # writes beyond a size limit fail (also inside unzip workers)
+        for lim, w in ((65536, 0), (65536, 2), (1000, 2)):
+            if run.tier == "quick" and not (scn["rel"] is None and scn["parent"] and not scn.get("sibling") and (w == 0 or (scn["fmt"] == "zips" and lim == 65536 and scn["fn"] == "folder"))):
+                continue  # quick: the plain path variant only; unzip workers (a process pool per call) for the folder-of-zips format only
+            if (scn["fmt"] in ("zips", "zip") or w == 0) and mine():
+                yield {"scn": scn, "kills": [lim], "n": n, "fail": "fsize", "workers": w}
         # chains of deaths
         small = scn["fmt"] == "zip" and scn["rel"] is None
         if scn["fmt"] == "zips_half" and (scn["rel"] is not None or not scn["parent"]):
@@ -299,7 +318,7 @@ def gen_cases(run):
                 for k2 in range(1, n + 8):
                     if mine():
                         yield {"scn": scn, "kills": [k1, k2], "n": n}
-        n_pairs = 6 if run.tier == "quick" else 160
+        n_pairs = 4 if run.tier == "quick" else 160
         for _ in range(n_pairs):
             spec = {"scn": scn, "kills": [rng.randint(1, n), rng.randint(1, n + 6)], "n": n}
             if rng.random() < 0.35:
@@ -419,7 +438,10 @@ def run_case(run, spec):
         # ---- interrupted attempts
         shapes = []
         for j, k in enumerate(spec["kills"]):
-            if spec.get("fail"):
+            if spec.get("fail") == "fsize":
+                res = _call_in_child(root, scn, fsize_limit=k, workers=workers)   # every write beyond k bytes fails with EFBIG (quota / full disk)
+                run.count("io_error_injections")
+            elif spec.get("fail"):
                 res = _call_in_child(root, scn, fail_at=k, workers=workers)   # the k-th file-system operation fails with EIO
                 run.count("io_error_injections")
             else:
@@ -436,8 +458,15 @@ def run_case(run, spec):
                 run.violation("state:looks-complete-but-is-not", f"{_desc(scn)} kills={spec['kills']}: after attempt {j + 1} both markers exist but the tree is incomplete")
                 return
             if res["status"] == "returned":
-                # the kill point lay beyond this attempt's operations: it completed -> judged like a recovery call
-                pass
+                # the kill point lay beyond this attempt's operations, or the injected error was absorbed: a call that returns normally
+                # has a complete copy behind it
+                body_j = {a: b for a, b in (snap or {}).items() if a not in _NOT_DATA}
+                if body_j != expected or snap is None or START not in snap or END not in snap:
+                    why = "an operation failed with an I/O error" if spec.get("fail") else "the kill point was not reached"
+                    run.violation("returns-on-incomplete-copy:after-io-error" if spec.get("fail") else "returns-on-incomplete-copy",
+                                  f"{_desc(scn)} {'faults' if spec.get('fail') else 'kills'}={spec['kills']}: attempt {j + 1} returned normally ({res['result']}) although {why} and the "
+                                  f"destination is '{shape}' (missing {sorted(set(expected) - set(body_j))[:4]})")
+                    return
         if spec["kills"]:
             run.count("single_death_cases" if len(spec["kills"]) == 1 else "chain_death_cases")
 
